@@ -27,14 +27,26 @@
     = parameter list not started" sentinel never misfires (positions are ≥ 1 once the value has started). After an ERROR
     verdict the internal restart offset `soffs` (never reported) is stale and is the only component not moved
     (`shResNa`; a `decide` example in Proofs/ShiftNA.lean shows the plain form is false there).
-  NOT yet proved (decided by the shift oracle on generated / hostile inputs at random `k` with random junk, and by the
-  correspondence): the contact / identity value lists, ParseTokenParam / URI lists, ParseHdrLine,
-  ParseHeaders, ParseSIPMsg, and relocation of parsed URIs (C18 covers AdjustOffs).
+  * contact / identity value lists (`Sipsp.Proofs.ShiftLists`, re-exported below): ParseAllContactValues /
+    ParseAllPAIValues for every legitimate resumption state.
+  * token parameters and URI lists (`Sipsp.Proofs.ShiftParams`): `shift_skipquoted`; `shift_tokparam_any` (EVERY
+    verdict, every flag combination incl. the end-of-input and space-terminator options, all 11 states: offset + k,
+    same verdict, same state, value field moved), `shift_tokparam` / `shift_tokparam_new` (the plain equation with the
+    translated object `shTp k` on every non-error verdict; `shift_tokparam_obs` on error verdicts compares everything
+    but the `all` / `name` spans, which the code leaves half-set there: `a\x01` vs `\x01` behind junk — callers never
+    read them and the list wrappers zero the element), `shift_tokparam_resumable` (a suspended object is legitimate
+    again, so the theorems apply to resumed calls); `shift_uriparams`, `shift_urihdrs` (plain equations for every
+    verdict; stored elements, element in progress moved; counts, type masks unchanged), `*_new`, `*_reset`,
+    `*_resumable`.
+  NOT yet proved (decided by the shift oracle on generated / hostile inputs — random and bounded-exhaustive — at
+  several `k` with junk, and by the correspondence): ParseHdrLine, ParseHeaders, ParseSIPMsg (in progress:
+  Proofs/ShiftMsg.lean), and relocation of parsed URIs (C18 covers AdjustOffs).
 -/
 import Sipsp.Proofs.Shift
 import Sipsp.Proofs.ShiftFLine
 import Sipsp.Proofs.ShiftNA
 import Sipsp.Proofs.ShiftLists
+import Sipsp.Proofs.ShiftParams
 
 namespace Sipsp.C11
 open Sipsp
@@ -193,5 +205,53 @@ theorem shift_pais_resume : type_of% @parseAllPAIValues_shift_resume := @parseAl
 
 /-- `GetPAI(j)` of the moved list is the moved `GetPAI(j)` -/
 theorem shift_pais_get : type_of% @shPa_getPAI := @shPa_getPAI
+
+/-! ### token parameters and the URI parameter / header lists (proved in `Sipsp.Proofs.ShiftParams`) -/
+
+/-- [EXPORT C11] **SkipQuoted is position independent** -/
+theorem shift_skipquoted : type_of% @Sipsp.skipQuoted_shift := @Sipsp.skipQuoted_shift
+
+/-- [EXPORT C11] every verdict (errors included): offset moved by `k`, same verdict, same state and panic flag, value field moved
+    unless absent; after an error only `all` / `name` are not compared -/
+theorem shift_tokparam_any : type_of% @Sipsp.parseTokenParam_shift_any := @Sipsp.parseTokenParam_shift_any
+
+/-- [EXPORT C11] **ParseTokenParam is position independent**, every verdict: offset + k, same verdict, translated object (after an error verdict `all` / `name` are not compared: `spTpNz`) -/
+theorem shift_tokparam_obs : type_of% @Sipsp.parseTokenParam_shiftN := @Sipsp.parseTokenParam_shiftN
+
+/-- [EXPORT C11] **ParseTokenParam is position independent** (every flag combination, every legitimate object): after OK /
+    MoreValues / end of header / MoreBytes the call behind `pre` returns the offset moved by `k = pre.size`, the same
+    verdict and the translated object -/
+theorem shift_tokparam : type_of% @Sipsp.parseTokenParam_shift := @Sipsp.parseTokenParam_shift
+
+/-- [EXPORT C11] … from a new object, at any start offset -/
+theorem shift_tokparam_new : type_of% @Sipsp.parseTokenParam_shift_new := @Sipsp.parseTokenParam_shift_new
+
+/-- [EXPORT C11] after MoreBytes the returned object is a legitimate argument at the returned offset (so the theorems apply to
+    the resumed call as well) -/
+theorem shift_tokparam_resumable : type_of% @Sipsp.parseTokenParam_shiftEntry := @Sipsp.parseTokenParam_shiftEntry
+
+/-- [EXPORT C11] **ParseAllURIParams is position independent** (every flag combination, any capacity, every legitimate list) -/
+theorem shift_uriparams : type_of% @Sipsp.parseAllURIParams_shift := @Sipsp.parseAllURIParams_shift
+
+/-- [EXPORT C11] **ParseAllURIHdrs is position independent** (every flag combination, any capacity, every legitimate list) -/
+theorem shift_urihdrs : type_of% @Sipsp.parseAllURIHdrs_shift := @Sipsp.parseAllURIHdrs_shift
+
+/-- [EXPORT C11] … from a new list of any capacity -/
+theorem shift_uriparams_new : type_of% @Sipsp.parseAllURIParams_shift_new := @Sipsp.parseAllURIParams_shift_new
+
+/-- [EXPORT C11] … from a new list of any capacity -/
+theorem shift_urihdrs_new : type_of% @Sipsp.parseAllURIHdrs_shift_new := @Sipsp.parseAllURIHdrs_shift_new
+
+/-- [EXPORT C11] … from a reset list (whatever it held before, e.g. fields of another buffer) -/
+theorem shift_uriparams_reset : type_of% @Sipsp.parseAllURIParams_shift_reset := @Sipsp.parseAllURIParams_shift_reset
+
+/-- [EXPORT C11] … from a reset list -/
+theorem shift_urihdrs_reset : type_of% @Sipsp.parseAllURIHdrs_shift_reset := @Sipsp.parseAllURIHdrs_shift_reset
+
+/-- [EXPORT C11] after MoreBytes the list returned by ParseAllURIParams is a legitimate argument at the returned offset -/
+theorem shift_uriparams_resumable : type_of% @Sipsp.parseAllURIParams_shiftEntry := @Sipsp.parseAllURIParams_shiftEntry
+
+/-- [EXPORT C11] after MoreBytes the list returned by ParseAllURIHdrs is a legitimate argument at the returned offset -/
+theorem shift_urihdrs_resumable : type_of% @Sipsp.parseAllURIHdrs_shiftEntry := @Sipsp.parseAllURIHdrs_shiftEntry
 
 end Sipsp.C11
